@@ -86,6 +86,29 @@ def rand_funcs(b, names, rng, k, hold=True):
     return out
 
 
+def churn(b, names, rng):
+    """Give the manager a HISTORY before anything is dumped: functions built
+    and dropped, a collection (low node numbers become free while higher ones
+    stay referenced), new functions on top of the kept nodes (a parent with a
+    SMALLER number than its children), a few swaps (nodes rewritten in place).
+    Returns the references still held."""
+    tmp = rand_funcs(b, names, rng, 3)
+    keep = rand_funcs(b, names, rng, 1)
+    for u in tmp:
+        b.decref(u)
+    b.collect_garbage()
+    keep += rand_funcs(b, names, rng, 2)
+    if len(b.vars) >= 2:
+        for _ in range(rng.randint(0, 2)):
+            x = rng.randrange(len(b.vars) - 1)
+            b.swap(x, x + 1)
+    return keep
+
+
+def order_of(b):
+    return [b.var_at_level(i) for i in range(len(b.vars))]
+
+
 # ======================= C11 =======================
 def c11_task(shard, tid, seed, n, src_order, dst_order, mode):
     """All functions of n variables copied from src_order to dst_order."""
@@ -175,21 +198,53 @@ def c11_task(shard, tid, seed, n, src_order, dst_order, mode):
         else:
             for r in list(rs) + pre:
                 dst.decref(r)
-    # copy_vars into an empty manager, into one that already has them, into a conflicting one
-    for kind in ('empty', 'same', 'conflict'):
-        t = _bdd.BDD()
+    # copy_vars into an empty manager, into one that already has them, into
+    # conflicting ones: the whole order reversed, and -- one variable at a time
+    # -- a target that declares just that source variable at ANOTHER level
+    # (behind an extra variable; level 0 included: the source's top variable)
+    kinds = [('empty', None), ('same', None), ('conflict', None)]
+    kinds += [('conflict_one', nm) for nm in src_order]
+    kinds += [('conflict_moved', nm) for nm in src_order]
+    kinds += [('subset_same', nm) for nm in src_order[:1]]
+    for kind, which in kinds:
+        use_auto = kind in ('conflict_one', 'conflict_moved', 'subset_same') and rng.random() < 0.5
+        ta = _autoref.BDD() if use_auto else None
+        t = ta._bdd if use_auto else _bdd.BDD()
+        must_refuse = kind == 'conflict'
         if kind == 'same':
             for nm in src_order:
                 t.add_var(nm)
         elif kind == 'conflict':
             for nm in reversed(src_order):
                 t.add_var(nm)
+        elif kind == 'conflict_one':
+            lv = src_order.index(which)
+            # `which` sits at level lv in the source; here at another level (behind 0-2 fillers)
+            tl = lv + 1 if lv < 2 else rng.choice([0, 1])
+            for i in range(tl):
+                t.add_var('x%d' % i)
+            t.add_var(which)
+            must_refuse = True
+        elif kind == 'conflict_moved':
+            # every other source variable at its source level; `which` replaced
+            # by a filler and declared at the bottom instead: the ONLY conflict
+            for nm in src_order:
+                t.add_var('x0' if nm == which else nm)
+            t.add_var(which)
+            must_refuse = True
+        elif kind == 'subset_same':
+            t.add_var(which)            # already there, at the same level: accepted
         ev = Ev('copy', 'copy_vars.' + kind, names, src, src_ext, t, {},
-                must_accept=(kind != 'conflict'), vars_only=True,
+                must_accept=(kind in ('empty', 'same', 'subset_same')), vars_only=True,
                 may_declare=True)
         exc = ''
         try:
-            _copy.copy_vars(src, t)
+            if use_auto:
+                sa = _autoref.BDD()
+                sa._bdd = src
+                _autoref.copy_vars(sa, ta)
+            else:
+                _copy.copy_vars(src, t)
         except Exception as e:   # noqa
             exc = type(e).__name__
         events.append(ev.done(src, src_ext, t, {}, [], [], exc))
@@ -208,6 +263,59 @@ def c11_task(shard, tid, seed, n, src_order, dst_order, mode):
                 samples=[dict(kind='copy sweep', src_order=src_order,
                               dst_order=dst_order, routes=routes)]
                 if tid % 16 == 0 else [])
+
+
+def copy_vars_conflict_task(shard, tid, seed, ntraces):
+    """C17: `copy_vars` into managers it must refuse (conflicting level of one
+    variable, reversed order, a used level): after the ValueError the receiver
+    must be as before."""
+    rng = random.Random(seed)
+    fps = set()
+    nev = 0
+    with open(shard, 'w') as f:
+        for i in range(ntraces):
+            n = rng.choice([2, 3, 4])
+            base = NAMES[:n]
+            names = base + ['x0', 'x1']
+            src_order = rng.sample(base, n)
+            src = mk_bdd(src_order) if rng.random() < 0.5 else mk_bdd_reordered(src_order, rng)
+            events = []
+            for kind in ('reversed', 'one_elsewhere', 'moved', 'level_used'):
+                t = _bdd.BDD()
+                which = rng.choice(src_order)
+                lv = src_order.index(which)
+                if kind == 'reversed':
+                    for nm in reversed(src_order):
+                        t.add_var(nm)
+                elif kind == 'one_elsewhere':
+                    tl = lv + 1 if lv < 2 else rng.choice([0, 1])
+                    for j in range(tl):
+                        t.add_var('x%d' % j)
+                    t.add_var(which)
+                elif kind == 'moved':
+                    for nm in src_order:
+                        t.add_var('x0' if nm == which else nm)
+                    t.add_var(which)
+                else:
+                    for j in range(lv):
+                        t.add_var(src_order[j])
+                    t.add_var('x0')              # the level of `which` is taken by another variable
+                pre = rand_funcs(t, sorted(t.vars)[:2], rng, 1) if t.vars else []
+                ev = Ev('copy', 'copy_vars.' + kind, names, src, {}, t, ext_of(pre),
+                        must_accept=False, vars_only=True, may_declare=True)
+                exc = ''
+                try:
+                    _copy.copy_vars(src, t)
+                except Exception as e:   # noqa
+                    exc = type(e).__name__
+                events.append(ev.done(src, {}, t, ext_of(pre), [], [], exc))
+                fps.add(('copy_vars', kind, n, tuple(src_order), lv))
+                for u in pre:
+                    t.decref(u)
+            f.write(json.dumps(dict(t=tid + i, meta=dict(driver='copy_vars_conflict'),
+                                    events=events), separators=(',', ':')) + '\n')
+            nev += len(events)
+    return dict(shard=shard, traces=ntraces, events=nev, fingerprints=fps, samples=[])
 
 
 # ======================= C12 =======================
@@ -246,8 +354,10 @@ def c12_trace(tid, rng, work, fps):
     for case in range(3):
         src = mk_bdd(src_order) if rng.random() < 0.5 else mk_bdd_reordered(src_order, rng)
         k = rng.randint(1, 4)
+        aged = churn(src, base, rng) if rng.random() < 0.6 else []
+        src_order = order_of(src)
         funcs = rand_funcs(src, base, rng, k)
-        src_ext = ext_of(funcs)
+        src_ext = ext_of(funcs + aged)
         as_dict = rng.random() < 0.5
         roots = {('r%d' % j): u * rng.choice([1, -1]) for j, u in enumerate(funcs)} if as_dict \
             else [u * rng.choice([1, -1]) for u in funcs]
@@ -334,8 +444,19 @@ def c12_trace(tid, rng, work, fps):
     # ---------- JSON through dd.autoref ----------
     for case in range(3):
         sa = _autoref.BDD()
-        for nm in src_order:
+        decl = list(src_order)
+        if rng.random() < 0.5:
+            rng.shuffle(decl)         # declaration order differs from the level order
+        for nm in decl:
             sa.add_var(nm)
+        if decl != list(src_order):
+            _bdd.reorder(sa._bdd, {nm: i for i, nm in enumerate(src_order)})
+        aged = []
+        if rng.random() < 0.6:
+            aged = [sa._wrap(u) for u in churn(sa._bdd, base, rng)]
+            for g in aged:
+                sa._bdd.decref(g.node)     # the wrapper took its own reference
+            src_order = order_of(sa._bdd)
         k = rng.randint(1, 3)
         ints = rand_funcs(sa._bdd, base, rng, k, hold=False)
         fs = [sa._wrap(u * rng.choice([1, -1])) for u in ints]
@@ -371,7 +492,7 @@ def c12_trace(tid, rng, work, fps):
             except Exception:
                 pass
         must = not (load_order and target == 'extra')
-        ev = Ev('io', 'json', names, sa, ext_of(fs), da, ext_of(fs if da is sa else pre),
+        ev = Ev('io', 'json', names, sa, ext_of(fs + aged), da, ext_of((fs + aged) if da is sa else pre),
                 must_accept=must, same_manager=(da is sa), may_declare=True,
                 target=target, load_order=load_order,
                 roots='dict' if as_dict else 'list', k=k)
@@ -391,9 +512,9 @@ def c12_trace(tid, rng, work, fps):
             exc = type(e).__name__
         live_dst = list(pre) + (list(got_keep.values()) if isinstance(got_keep, dict) else list(got_keep or []))
         if da is sa:
-            live_dst = list(fs) + live_dst
-        events.append(ev.done(sa, ext_of(fs) if da is not sa else ext_of(live_dst),
+            live_dst = list(fs) + aged + live_dst
+        events.append(ev.done(sa, ext_of(fs + aged) if da is not sa else ext_of(live_dst),
                               da, ext_of(live_dst), us, rs, exc))
         fps.add(('json', n, tuple(src_order), target, load_order, as_dict, k))
-        del fs, roots, got_keep, pre, live_dst
+        del fs, roots, got_keep, pre, live_dst, aged
     return dict(t=tid, meta=dict(driver='c12'), events=events)
